@@ -9,6 +9,8 @@ func init() {
 		Fixtures:    []string{"dec"},
 		Run:         runC15,
 		SelfTest: []Mutation{
+			{Name: "ASCII STL coordinates parsed as doubles then narrowed", File: "fileformats/stl.go",
+				Old: "strconv.ParseFloat(token, 32)", New: "strconv.ParseFloat(token, 64)", Rule: "DR.WIDTH", Expect: "parseSTLVector"},
 			{Name: "float64 text written with float32 precision", File: "fileformats/ply_value.go",
 				Old: "strconv.FormatFloat(p.Value, 'f', -1, 64)", New: "strconv.FormatFloat(p.Value, 'f', -1, 32)", Rule: "DF", Expect: "PLYValueFloat64"},
 			{Name: "binary ushort decoded as int16", File: "fileformats/ply.go",
@@ -44,6 +46,8 @@ func runC15(c *Ctx) {
 	s := c.decoderScope("dec")
 	s.ruleDAHint("DA.HINT")
 	c.floor("DA.HINT", 4)
+	s.ruleDRWidth("DR.WIDTH")
+	c.floor("DR.WIDTH", 1)
 	s.ruleDR("DR")
 	c.floor("DR.SHORT", 1)
 	c.floor("DR.LINE", 0)
